@@ -460,6 +460,12 @@ func RuleFPresence(c *core.Ctx) {
 					cond = u.X
 				}
 				if cl, ok := cond.(*ssa.Call); ok && cl.Call.StaticCallee() != nil && core.PkgPathOf(cl.Call.StaticCallee()) == pkgDirectives && cl.Call.StaticCallee().Name() == "Empty" {
+					// the emptiness of the annotation's *range* (Start == End): a method of the
+					// same name on the annotation type itself answers another question
+					if recv := cl.Call.StaticCallee().Signature.Recv(); recv == nil || !isNamed(derefType(recv.Type()), p.NamedType(pkgDirectives, "Range")) {
+						bad = append(bad, "a test by "+core.FuncName(cl.Call.StaticCallee())+", which is not the emptiness of the annotation's range")
+						continue
+					}
 					has := false
 					for v := range originSet(p, cl.Call.Args[0], 0) {
 						if fa, ok := v.(*ssa.FieldAddr); ok && core.FieldOf(fa) == fv {
@@ -1453,4 +1459,11 @@ func fieldOfStruct(t types.Type, i int) *types.Var {
 		return st.Field(i)
 	}
 	return nil
+}
+
+func derefType(t types.Type) types.Type {
+	if pt, ok := t.Underlying().(*types.Pointer); ok {
+		return pt.Elem()
+	}
+	return t
 }
